@@ -1,5 +1,5 @@
 """C02 — axis-parallel inputs are clipped exactly, whatever their degeneracy (DESIGN 6 C02)."""
-import json, os, sys, time, glob
+import json, os, sys, time, glob, threading
 import concurrent.futures as cf
 import vf
 sys.path.insert(0, os.path.join(vf.VERIF, 'gen'))
@@ -12,6 +12,7 @@ META = dict(
           "(winding number of a rectilinear path is constant on every open grid cell, from the definition of edge_w), "
           "C02_rect_check_sound (rect_check = true implies net winding = [selected] at EVERY rational point off the grid "
           "lines, area2 = summed selected cell areas, every solution vertex on X x Y, every solution edge axis-parallel), "
+          "C02_area_from_winding (the area clause follows from the winding clause: discrete Green theorem), "
           "C02_unit_cells, C02_spec_scale (specification commutes with integer scaling and lattice translation).  "
           "The engine itself is validated, not proved: the extracted checker is run on exhaustively enumerated small "
           "scopes (all ordered oriented rectangle pairs of a 4x4-cell lattice, all closed lattice walks of <= 8 unit steps on "
@@ -30,50 +31,209 @@ CT = {1: 'Intersection', 2: 'Union', 3: 'Difference', 4: 'Xor'}
 FR = {0: 'EvenOdd', 1: 'NonZero', 2: 'Positive', 3: 'Negative'}
 ALL = 0xFFFFFFFF
 IDENT = (1, 0, 0, 0, 0)
+BATCH = 200000
 
 
 def opt_index(ct, fr, pc):
     return ((ct - 1) * 4 + fr) * 2 + pc
 
 
+_fmt_cache = {}
+
+
+def fmt1(p):
+    k = id(p)
+    r = _fmt_cache.get(k)
+    if r is None or r[0] is not p:
+        r = (p, '%d %s' % (len(p), vf.fmt_path(p)) if p else '0')
+        _fmt_cache[k] = r
+    return r[1]
+
+
+def fmt_ps(ps):
+    return ' '.join([str(len(ps))] + [fmt1(p) for p in ps])
+
+
 def line_for(mask, tf, S, C):
-    return 'RECTILT %d %d %d %d %d %d %s %s' % ((mask,) + tuple(tf) + (vf.fmt_paths(S), vf.fmt_paths(C)))
+    return 'RECTILT %d %d %d %d %d %d %s %s' % (mask, tf[0], tf[1], tf[2], tf[3], tf[4], fmt_ps(S), fmt_ps(C))
 
 
 # ----------------------------------------------------------------------------- harness | oracle pipeline
-def pipe_lines(exe, oracle, lines, jobs=None, timeout=3000):
-    """Feed `lines` to `exe | oracle` in parallel shards, preserving order.  Returns (verdict_lines, failed_shards)."""
+def shard_timeout(n):
+    return 30 + 0.03 * n
+
+
+def pipe_lines(exe, oracle, lines, jobs=None):
+    """Feed `lines` to `exe | oracle` in parallel shards, preserving order.
+    Returns (list of (shard_lines, verdict_lines or None), failed) — a shard whose pipeline crashed, hung or lost lines has
+    verdicts None; once one shard failed the shards not yet started are skipped (verdicts None, not in `failed`)."""
     jobs = jobs or vf.NPROC
     n = len(lines)
     if n == 0:
         return [], []
     chunk = max(1, (n + jobs * 4 - 1) // (jobs * 4))
     shards = [lines[i:i + chunk] for i in range(0, n, chunk)]
-    outs, fails = [None] * len(shards), []
+    res, failed = [None] * len(shards), []
+    stop = threading.Event()
 
     def work(i):
+        if stop.is_set():
+            return i, None
         data = '\n'.join(shards[i]) + '\n'
-        p = vf.sh(['bash', '-c', 'set -o pipefail; "%s" | "%s"' % (exe, oracle)], input=data, timeout=timeout)
+        p = vf.sh(['bash', '-c', 'set -o pipefail; "%s" | "%s"' % (exe, oracle)], input=data, timeout=shard_timeout(len(shards[i])))
         return i, p
     with cf.ThreadPoolExecutor(max_workers=jobs) as ex:
         for i, p in ex.map(work, range(len(shards))):
+            if p is None:
+                res[i] = (shards[i], None)
+                continue
             o = p.stdout.split('\n')
             if o and o[-1] == '':
                 o.pop()
-            outs[i] = o
             if p.returncode != 0 or len(o) != len(shards[i]):
-                fails.append((i, shards[i], p.returncode, p.stderr[-2000:]))
-    return outs, fails
+                stop.set()
+                failed.append((i, p.returncode, p.stderr[-1500:]))
+                res[i] = (shards[i], None)
+            else:
+                res[i] = (shards[i], o)
+    return res, failed
+
+
+def isolate(exe, lines):
+    """16-way parallel search for the first input line on which the harness alone crashes or hangs.
+    Returns (line, kind, detail) or None when the failure does not reproduce on the harness alone."""
+    cur = list(lines)
+
+    def bad(part):
+        p = vf.run_lines(exe, part, timeout=10 + 0.01 * len(part))
+        return p.returncode != 0 or p.stdout.count('\n') != len(part), p
+    while len(cur) > 1:
+        k = min(16, len(cur))
+        step = (len(cur) + k - 1) // k
+        parts = [cur[i:i + step] for i in range(0, len(cur), step)]
+        with cf.ThreadPoolExecutor(max_workers=16) as ex:
+            rs = list(ex.map(bad, parts))
+        nxt = None
+        for part, (b, p) in zip(parts, rs):
+            if b:
+                nxt = part
+                break
+        if nxt is None:
+            return None
+        cur = nxt
+    b, p = bad(cur)
+    if not b:
+        return None
+    kind = 'hang' if getattr(p, 'timed_out', False) else 'crash'
+    return cur[0], kind, 'rc=%s %s' % (p.returncode, (p.stderr or '')[-300:].strip())
 
 
 class Scope:
-    def __init__(self, name, exhaustive, desc):
-        self.name, self.exhaustive, self.desc = name, exhaustive, desc
+    """streams inputs through the pipeline in batches; aggregates coverage; records the first failing case per key"""
+
+    def __init__(self, ctx, env, name, exhaustive, desc):
+        self.ctx, self.env, self.name, self.exhaustive, self.desc = ctx, env, name, exhaustive, desc
         self.lines, self.meta = [], []       # meta: (base S, base C, tf, mask, class)
+        self.t0 = time.time()
+        self.inputs = self.nexec = self.nne = self.npaths = self.nverts = self.nbad = self.skipped = 0
+        self.sampled = None
 
     def add(self, S, C, tf=IDENT, mask=ALL, cls=''):
         self.lines.append(line_for(mask, tf, S, C))
         self.meta.append((S, C, tf, mask, cls))
+        if len(self.lines) >= BATCH:
+            self.flush()
+
+    def flush(self):
+        ctx, env = self.ctx, self.env
+        lines, meta = self.lines, self.meta
+        self.lines, self.meta = [], []
+        if not lines:
+            return
+        self.inputs += len(lines)
+        if self.sampled is None:
+            S, C, tf, mask, cls = meta[len(meta) // 3]
+            self.sampled = dict(scope=self.name, S=S, C=C, transform=list(tf), option_mask=mask)
+        if env['abort']:
+            self.skipped += len(lines)
+            return
+        res, failed = pipe_lines(env['exe'], env['oracle'], lines)
+        if failed:
+            i, rc, err = failed[0]
+            iso = isolate(env['exe'], res[i][0])
+            if iso is None:
+                raise vf.Infra('C02 pipeline failed in scope %s (rc=%s) and the harness alone does not reproduce it: %s' % (self.name, rc, err[-800:]))
+            l, kind, detail = iso
+            t = l.split()
+            mask, tf = int(t[1]), tuple(int(x) for x in t[2:7])
+            S, pos = vf.parse_paths(t, 7)
+            C, pos = vf.parse_paths(t, pos)
+            key = '%s.boolop' % kind
+            if key not in env['first']:
+                env['first'].add(key)
+                ctx.violation(key, 'boolean operation %s on rectilinear input (scope %s, %s): S=%s C=%s transform=%s'
+                              % ('crashed' if kind == 'crash' else 'did not terminate', self.name, detail, S, C, list(tf)),
+                              replay=dict(kind=kind, scope=self.name, harness_line=l, lattice_case=dict(S=S, C=C, transform=list(tf)), mask=mask))
+            env['fail_count'][key] = env['fail_count'].get(key, 0) + 1
+            env['crashed'] = True
+        pos = 0
+        for shard, verdicts in res:
+            m = meta[pos:pos + len(shard)]
+            pos += len(shard)
+            if verdicts is None:
+                self.skipped += len(shard)
+                continue
+            self.judge(m, verdicts)
+        if env['crashed'] and time.time() - ctx.t0 > env['deadline']:
+            env['abort'] = True
+
+    def judge(self, meta, verdicts):
+        ctx, env = self.ctx, self.env
+        for (S, C, tf, mask, cls), v in zip(meta, verdicts):
+            if v.startswith('OK '):
+                h = v.split()
+                self.nexec += int(h[1]); self.nne += int(h[2]); self.npaths += int(h[3]); self.nverts += int(h[4])
+                continue
+            t = v.split(';')
+            h = t[0].split()
+            if not h or h[0] != 'BAD':
+                raise vf.Infra('C02 oracle said: %s' % v[:500])
+            self.nexec += int(h[1]); self.nne += int(h[2]); self.npaths += int(h[3]); self.nverts += int(h[4])
+            self.nbad += 1
+            for ent in t[1:]:
+                head, key, msg, outp = ent.split('|')
+                idx, ct, fr, pc = [int(x) for x in head.split()]
+                scale = 'k=%d' % tf[0] if tf[0] < 1000 else 'k=2^%d' % (tf[0].bit_length() - 1)
+                ctx.hist('failures', '%s %s/%s pc=%d %s %s' % (key, CT[ct], FR[fr], pc, cls or shape_of(S, C), scale))
+                env['fail_count'][key] = env['fail_count'].get(key, 0) + 1
+                if key in env['first']:
+                    continue
+                env['first'].add(key)
+                St, Ct = rectil.apply_transform(tf, S), rectil.apply_transform(tf, C)
+                sol, _ = vf.parse_paths(outp.split())
+                ctx.violation(key, '%s/%s PreserveCollinear=%d scope=%s: %s; S=%s C=%s solution=%s'
+                              % (CT[ct], FR[fr], pc, self.name, msg, St, Ct, sol),
+                              replay=dict(S=St, C=Ct, ct=ct, fr=fr, pc=pc, solution=sol, scope=self.name,
+                                          lattice_case=dict(S=S, C=C, transform=list(tf)), message=msg))
+
+    def close(self):
+        self.flush()
+        ctx = self.ctx
+        wall = time.time() - self.t0
+        ctx.count('evaluations', self.nexec)
+        ctx.count('nonempty_solutions', self.nne)
+        ctx.count('solution_paths_total', self.npaths)
+        ctx.count('solution_vertices_total', self.nverts)
+        ent = dict(name=self.name, inputs=self.inputs, executions=self.nexec, nonempty_solutions=self.nne,
+                   failing_inputs=self.nbad, exhaustive=bool(self.exhaustive and not self.skipped), wall_s=round(wall, 1), what=self.desc)
+        if self.skipped:
+            ent['inputs_skipped_after_crash_or_hang'] = self.skipped
+        ctx.cov.setdefault('scopes', []).append(ent)
+        ctx.log('scope %-28s %8d inputs %10d executions %9d non-empty  %d failing inputs%s  %.1fs'
+                % (self.name, self.inputs, self.nexec, self.nne, self.nbad,
+                   ('  %d skipped' % self.skipped) if self.skipped else '', wall))
+        if self.sampled:
+            ctx.sample(self.sampled, limit=12)
 
 
 def shape_of(S, C):
@@ -82,153 +242,111 @@ def shape_of(S, C):
     return '+'.join(sorted(set(one(p) for p in S))) + '/' + ('+'.join(sorted(set(one(p) for p in C))) or 'none')
 
 
-def run_scope(ctx, sc, exe, oracle, state):
-    """run one scope; record coverage and violations (first failing case in enumeration order per key)"""
-    t0 = time.time()
-    outs, fails = pipe_lines(exe, oracle, sc.lines)
-    if fails:
-        i, shard, rc, err = fails[0]
-        l, rc1, err1 = vf.isolate_failure(exe, shard, timeout=30)
-        if l is not None:
-            ctx.violation('crash.boolop', 'boolean operation crashed/hung on rectilinear input (rc=%s): %s' % (rc1, err1[-300:]),
-                          replay=dict(scope=sc.name, line=l))
-        else:
-            raise vf.Infra('C02 pipeline failed in scope %s (rc=%s): %s' % (sc.name, rc, err[-800:]))
-        return
-    flat = [l for o in outs for l in o]
-    nexec = nne = npaths = nverts = 0
-    nbadcases = 0
-    for (S, C, tf, mask, cls), v in zip(sc.meta, flat):
-        t = v.split(';')
-        h = t[0].split()
-        if h[0] not in ('OK', 'BAD'):
-            raise vf.Infra('C02 oracle said: %s' % v[:500])
-        n, ne, np_, nv = int(h[1]), int(h[2]), int(h[3]), int(h[4])
-        nexec += n; nne += ne; npaths += np_; nverts += nv
-        if h[0] == 'OK':
-            continue
-        nbadcases += 1
-        for ent in t[1:]:
-            head, key, msg, outp = ent.split('|')
-            idx, ct, fr, pc = [int(x) for x in head.split()]
-            scale = 'k=%d' % tf[0] if tf[0] < 1000 else 'k=2^%d' % (tf[0].bit_length() - 1)
-            ctx.hist('failures', '%s %s/%s pc=%d %s %s' % (key, CT[ct], FR[fr], pc, cls or shape_of(S, C), scale))
-            state['fail_count'][key] = state['fail_count'].get(key, 0) + 1
-            if key in state['first']:
-                continue
-            state['first'].add(key)
-            St, Ct = rectil.apply_transform(tf, S), rectil.apply_transform(tf, C)
-            sol, _ = vf.parse_paths(outp.split())
-            ctx.violation(key, '%s/%s PreserveCollinear=%d scope=%s: %s; S=%s C=%s solution=%s'
-                          % (CT[ct], FR[fr], pc, sc.name, msg, St, Ct, sol),
-                          replay=dict(S=St, C=Ct, ct=ct, fr=fr, pc=pc, solution=sol, scope=sc.name,
-                                      lattice_case=dict(S=S, C=C, transform=list(tf)), message=msg))
-    wall = time.time() - t0
-    ctx.count('evaluations', nexec)
-    ctx.count('nonempty_solutions', nne)
-    ctx.count('solution_paths_total', npaths)
-    ctx.count('solution_vertices_total', nverts)
-    ctx.cov.setdefault('scopes', []).append(dict(name=sc.name, inputs=len(sc.lines), executions=nexec, nonempty_solutions=nne,
-                                                  failing_inputs=nbadcases, exhaustive=sc.exhaustive, wall_s=round(wall, 1),
-                                                  what=sc.desc))
-    ctx.log('scope %-28s %8d inputs %9d executions %9d non-empty  %d failing inputs  %.1fs'
-            % (sc.name, len(sc.lines), nexec, nne, nbadcases, wall))
-    if sc.meta:
-        S, C, tf, mask, cls = sc.meta[len(sc.meta) // 2]
-        ctx.sample(dict(scope=sc.name, S=S, C=C, transform=list(tf), option_mask=mask), limit=12)
-
-
 # ----------------------------------------------------------------------------- scopes
-def big_scale_variant(ctx, sc, S, C, n, i, every, cls=''):
+def big_variant(ctx, sc, S, C, n, i, every, cls=''):
     """rotating subset at the big scales: case i is additionally run at scale SCALES[1 + (i // every) % 3] when i % every == 0"""
-    if every and i % every == 0:
+    if i % every == 0:
         name, k = rectil.SCALES[1 + (i // every) % 3]
         sc.add(S, C, rectil.transform_for(ctx.rng, n, k), ALL, cls)
 
 
-def build_scopes(ctx):
+def run_scopes(ctx, env):
     q = ctx.quick
-    scopes = []
     # (a) all ordered pairs of oriented rectangles on the 4x4-cell lattice
     R4 = rectil.oriented_rects(4)
-    a1 = Scope('rectpairs-4x4', True, 'all ordered pairs (subject, clip) of the 100 rectangles of a 4x4-cell lattice, each in both '
-               'orientations (200 x 200), x 16 rule combinations x PreserveCollinear on/off, scale 1')
-    a2 = Scope('rectpairs-4x4-scaled', False if q else True,
-               ('every %s pair of the same enumeration at scale 7 / 2^31 / 2^58 (rotating) with lattice translation, all 32 option sets'
-                % ('29th' if q else '1st')))
-    i = 0
-    every = 29 if q else 1
+    a1 = Scope(ctx, env, 'rectpairs-4x4', True, 'all ordered pairs (subject, clip) of the 100 rectangles of a 4x4-cell lattice, each in both '
+               'orientations (200 x 200 inputs), x 16 rule combinations x PreserveCollinear on/off, scale 1')
     for s in R4:
         for c in R4:
             a1.add([s], [c], cls='rect/rect')
+    a1.close()
+    every = 5 if q else 1
+    a2 = Scope(ctx, env, 'rectpairs-4x4-scaled', not q,
+               ('every 5th pair of the same enumeration at one of the scales 7 / 2^31 / 2^58 (rotating)' if q else
+                'every pair of the same enumeration at each of the scales 7, 2^31, 2^58') + ', with lattice translation, all 32 option sets')
+    i = 0
+    for s in R4:
+        for c in R4:
             if q:
-                big_scale_variant(ctx, a2, [s], [c], 4, i, every, 'rect/rect')
+                big_variant(ctx, a2, [s], [c], 4, i, every, 'rect/rect')
             else:
                 for name, k in rectil.SCALES[1:]:
                     a2.add([s], [c], rectil.transform_for(ctx.rng, 4, k), ALL, 'rect/rect')
             i += 1
-    scopes += [a1, a2]
+    a2.close()
     # (b) all closed lattice walks of <= 8 unit steps on the 3x3-cell lattice as subject against every rectangle
     walks = rectil.closed_walks(3, 8, canonical=q)
+    for w in walks:
+        ctx.hist('walk_classes', rectil.walk_class(w))
+        ctx.hist('walk_steps', len(w))
     R3 = rectil.rects(3)
-    b1 = Scope('walks8-3x3-vs-rect', True,
-               'all %d closed lattice walks of 2..8 unit steps on the 3x3-cell lattice (%s) as subject against each of the 36 '
-               'rectangles (%s) as clip, all 32 option sets, scale 1'
-               % (len(walks), 'one representative per cyclic rotation class, both directions' if q else 'every start vertex, both directions',
-                  'counter-clockwise' if q else 'both orientations'))
-    b2 = Scope('walks8-3x3-vs-rect-sampled', False,
-               'rotating subset of the same pairs: clockwise clip rectangle at scale 1, and scales 7 / 2^31 / 2^58 with translation'
-               if q else 'the same pairs with collinear-merged walk vertices, and a rotating subset at scales 7 / 2^31 / 2^58')
+    R3ccw = [rectil.rect_path(r) for r in R3]
+    R3cw = [rectil.rect_path(r, True) for r in R3]
+    wcls = [rectil.walk_class(w) for w in walks]
+    b1 = Scope(ctx, env, 'walks8-3x3-vs-rect', True,
+               'all %d closed lattice walks of 2..8 unit steps on the 3x3-cell lattice (%s; every visited lattice point is a vertex) as '
+               'subject against each of the 36 rectangles in both orientations as clip, all 32 option sets, scale 1'
+               % (len(walks), 'one representative per cyclic rotation class, both directions' if q else 'every start vertex, both directions'))
+    for w, wc in zip(walks, wcls):
+        for j in range(len(R3)):
+            b1.add([w], [R3ccw[j]], cls=wc + '/rect')
+            b1.add([w], [R3cw[j]], cls=wc + '/rect')
+    b1.close()
+    b2 = Scope(ctx, env, 'walks8-3x3-vs-rect-scaled', False,
+               'rotating subset (every %s (walk, rectangle) pair) of the same enumeration at scales 7 / 2^31 / 2^58 with lattice translation'
+               % ('7th' if q else '3rd'))
     i = 0
-    for w in walks:
-        cls = rectil.walk_class(w) + '/rect'
-        for r in R3:
-            b1.add([w], [rectil.rect_path(r)], cls=cls)
-            if q:
-                if i % 17 == 0:
-                    b2.add([w], [rectil.rect_path(r, True)], cls=cls)
-                big_scale_variant(ctx, b2, [w], [rectil.rect_path(r, i % 2 == 1)], 3, i, 23, cls)
-            else:
-                b1.add([w], [rectil.rect_path(r, True)], cls=cls)
-                big_scale_variant(ctx, b2, [w], [rectil.rect_path(r, i % 2 == 1)], 3, i, 11, cls)
+    for w, wc in zip(walks, wcls):
+        for j in range(len(R3)):
+            big_variant(ctx, b2, [w], [R3cw[j] if i % 2 else R3ccw[j]], 3, i, 7 if q else 3, wc + '/rect')
             i += 1
-        if not q:
-            m = rectil.merge_collinear(w)
-            if m != w and len(m) >= 2:
-                for r in R3:
-                    b2.add([m], [rectil.rect_path(r)], cls=cls)
-    scopes += [b1, b2]
-    # (c) walk as clip, rectangle as subject (Difference is not symmetric); quick: rotating subset
-    c1 = Scope('rect-vs-walks8-3x3', not q,
-               ('every 5th' if q else 'all') + ' (rectangle subject, walk clip) pairs of the same enumeration, all 32 option sets, scale 1')
+    b2.close()
+    b3 = Scope(ctx, env, 'walks8-merged-vs-rect', True,
+               'the same walks with the vertices inside straight runs removed (only turning and reversal vertices kept), %s, '
+               'against each of the 36 counter-clockwise rectangles, all 32 option sets, scale 1'
+               % ('distinct after merging'))
+    seen = set()
+    merged = []
+    for w in walks:
+        m = rectil.merge_collinear(w)
+        if len(m) >= 2 and m != w and tuple(m) not in seen:
+            seen.add(tuple(m))
+            merged.append(m)
+    for m in merged:
+        mc = rectil.walk_class(m) + '/rect'
+        for j in range(len(R3)):
+            b3.add([m], [R3ccw[j]], cls=mc)
+    b3.close()
+    # (c) rectangle subject, walk clip (Difference is not symmetric)
+    c1 = Scope(ctx, env, 'rect-vs-walks8-3x3', True,
+               'each of the 36 rectangles (orientation alternating with the enumeration index) as subject against each of the %d walks as clip, '
+               'all 32 option sets, scale 1' % len(walks))
     i = 0
-    for w in walks:
-        cls = 'rect/' + rectil.walk_class(w)
-        for r in R3:
-            if not q or i % 5 == 0:
-                c1.add([rectil.rect_path(r, i % 3 == 2)], [w], cls=cls)
+    for w, wc in zip(walks, wcls):
+        for j in range(len(R3)):
+            c1.add([R3cw[j] if i % 3 == 2 else R3ccw[j]], [w], cls='rect/' + wc)
             i += 1
-    scopes.append(c1)
+    c1.close()
     # (d) triples: two subject rectangles, one clip rectangle on the 3x3-cell lattice
     O3 = rectil.oriented_rects(3)
     if q:
-        d1 = Scope('recttriples-3x3-sampled', False, 'seeded sample of (subject, subject, clip) triples of oriented rectangles on the '
-                   '3x3-cell lattice, all 32 option sets, scales rotating over 1, 7, 2^31, 2^58')
-        for i in range(6000):
+        d1 = Scope(ctx, env, 'recttriples-3x3-sampled', False, 'seeded sample of 40000 (subject, subject, clip) triples of oriented rectangles on '
+                   'the 3x3-cell lattice, all 32 option sets, 3 of 4 at scale 1, the rest rotating over 7, 2^31, 2^58')
+        for i in range(40000):
             s1, s2, c = ctx.rng.choice(O3), ctx.rng.choice(O3), ctx.rng.choice(O3)
-            name, k = rectil.SCALES[i % 4] if i % 2 else rectil.SCALES[0]
+            k = rectil.SCALES[1 + (i // 4) % 3][1] if i % 4 == 3 else 1
             d1.add([s1, s2], [c], IDENT if k == 1 else rectil.transform_for(ctx.rng, 3, k), ALL, 'rect+rect/rect')
     else:
-        d1 = Scope('recttriples-3x3', True, 'all ordered triples (subject, subject, clip) of the 72 oriented rectangles of the 3x3-cell '
+        d1 = Scope(ctx, env, 'recttriples-3x3', True, 'all ordered triples (subject, subject, clip) of the 72 oriented rectangles of the 3x3-cell '
                    'lattice (72^3), all 32 option sets, scale 1')
         for s1 in O3:
             for s2 in O3:
                 for c in O3:
                     d1.add([s1, s2], [c], cls='rect+rect/rect')
-    scopes.append(d1)
+    d1.close()
     # (e) random degenerate walks
-    nrand = 4000 if q else 100000
-    e1 = Scope('random-walks', False, '%d seeded random cases: 1-3 subject and 0-2 clip paths, each a random closed rectilinear walk with '
+    nrand = 24000 if q else 100000
+    e1 = Scope(ctx, env, 'random-walks', False, '%d seeded random cases: 1-3 subject and 0-2 clip paths, each a random closed rectilinear walk with '
                'reversals (zero-width sections), retraced and repeated sections, duplicate vertices, or a rectangle, on lattices of '
                '3..8 cells, scales rotating over 1, 7, 2^31, 2^58 with translation, all 32 option sets' % nrand)
     for i in range(nrand):
@@ -237,13 +355,15 @@ def build_scopes(ctx):
         name, k = rectil.SCALES[i % 4]
         e1.add(S, C, IDENT if k == 1 else rectil.transform_for(ctx.rng, n, k), ALL)
         ctx.hist('random_input_vertices', min(60, sum(len(p) for p in S + C)) // 10 * 10)
-    scopes.append(e1)
-    return scopes
+        ctx.hist('random_shapes', shape_of(S, C))
+    e1.close()
 
 
-def corpus_scope(ctx):
-    sc = Scope('corpus', True, 'minimised past failures and boundary cases from corpus/C02/*.case (run first)')
+def corpus_scope(ctx, env):
+    sc = Scope(ctx, env, 'corpus', True, 'boundary cases and minimised past failures from corpus/C02/*.case (run first), at scale 1 and at '
+               'scales 7, 2^31, 2^58')
     for f in sorted(glob.glob(os.path.join(vf.VERIF, 'corpus', 'C02', '*.case'))):
+        name = 'corpus:' + os.path.basename(f)[:-5]
         for ln in vf.read(f).splitlines():
             ln = ln.split('#')[0].strip()
             if not ln:
@@ -251,12 +371,12 @@ def corpus_scope(ctx):
             t = ln.split()
             S, pos = vf.parse_paths(t, 0)
             C, pos = vf.parse_paths(t, pos)
-            sc.add(S, C, cls='corpus:' + os.path.basename(f)[:-5])
-            for name, k in rectil.SCALES[1:]:
-                n = max([max(abs(x), abs(y)) for p in S + C for (x, y) in p] + [1])
-                if n <= 8:
-                    sc.add(S, C, rectil.transform_for(ctx.rng, n, k), ALL, 'corpus:' + os.path.basename(f)[:-5])
-    return sc
+            sc.add(S, C, cls=name)
+            coords = [c for p in S + C for v in p for c in v]
+            if coords and min(coords) >= 0 and max(coords) <= 8:
+                for sname, k in rectil.SCALES[1:]:
+                    sc.add(S, C, rectil.transform_for(ctx.rng, max(coords), k), ALL, name)
+    sc.close()
 
 
 def cross_check(ctx, exe, oracle):
@@ -266,8 +386,11 @@ def cross_check(ctx, exe, oracle):
     for i in range(40):
         S, C = rectil.random_case(rng, rng.range(3, 6))
         lines.append(line_for(ALL, IDENT, S, C))
-    p = vf.run_lines(exe, lines)
-    rc1, exp = [], []
+    p = vf.run_lines(exe, lines, timeout=60)
+    if p.returncode != 0 or p.stdout.count('\n') != len(lines):
+        ctx.cov['oracle_glue_crosscheck'] = 'skipped: harness crashed or hung on the cross-check inputs (isolated by the scopes below)'
+        return
+    rc1 = []
     for l in p.stdout.splitlines():
         t = l.split()
         S, pos = vf.parse_paths(t, 1)
@@ -300,18 +423,17 @@ def run(ctx):
         return
     oracle = vf.oracle_build('rectcheck')
     cross_check(ctx, exe, oracle)
-    state = dict(first=set(), fail_count={})
-    sc = corpus_scope(ctx)
-    if sc.lines:
-        run_scope(ctx, sc, exe, oracle, state)
-    for sc in build_scopes(ctx):
-        run_scope(ctx, sc, exe, oracle, state)
-    ctx.cov['failures_by_key'] = state['fail_count']
+    env = dict(exe=exe, oracle=oracle, first=set(), fail_count={}, crashed=False, abort=False,
+               deadline=240 if ctx.quick else 1500)
+    corpus_scope(ctx, env)
+    run_scopes(ctx, env)
+    ctx.cov['failures_by_key'] = env['fail_count']
     ctx.cov['distinct_nontrivial'] = ctx.cov.get('nonempty_solutions', 0)
     ctx.cov['exhaustive'] = False
     ctx.cov['exhaustive_scopes'] = [s['name'] for s in ctx.cov.get('scopes', []) if s['exhaustive']]
     ctx.cov['rule'] = ('enumerated/generated closed rectilinear inputs (see scopes[].what; scopes with exhaustive=true are enumerated '
-                       'completely in this tier, in a fixed order, so the first failing case is minimal by construction); every input is '
+                       'completely in this tier, in a fixed order, so the first failing case is minimal by construction; the top-level '
+                       'exhaustive flag is false because the run also contains sampled scopes); every input is '
                        'executed on a fresh Clipper64 under each of 4 clip types x 4 fill rules x PreserveCollinear on/off and every '
                        'solution is judged by the extracted Coq checker rect_check (all cells of the compressed grid incl. the unbounded '
                        'ones, exact area2, vertices on X x Y, axis-parallel edges) plus Execute = true, >= 3 vertices, no consecutive '
@@ -329,15 +451,23 @@ def replay(ctx, path):
     r = json.load(open(path))['replay']
     exe = vf.build_cpp(ctx, 'cx_rectil.cpp', 'plain')
     oracle = vf.oracle_build('rectcheck')
-    S = [[tuple(v) for v in p] for p in r['S']]
-    C = [[tuple(v) for v in p] for p in r['C']]
-    mask = 1 << opt_index(r['ct'], r['fr'], r['pc'])
-    p = vf.run_lines(exe, [line_for(mask, IDENT, S, C)])
-    print(p.stdout.strip())
-    v = vf.run_lines(oracle, [p.stdout.strip()]).stdout.strip()
-    print(v)
     ctx.count('evaluations')
     ctx.cov['distinct_nontrivial'] = 1
+    if 'harness_line' in r:
+        p = vf.run_lines(exe, [r['harness_line']], timeout=30)
+        print('harness rc=%s timed_out=%s' % (p.returncode, getattr(p, 'timed_out', False)))
+        if p.returncode != 0 or not p.stdout.strip():
+            ctx.violation('%s.boolop' % r.get('kind', 'crash'), 'replayed: harness %s' % ('hung' if getattr(p, 'timed_out', False) else 'crashed'), replay=r)
+            return
+        out = p.stdout.strip()
+    else:
+        S = [[tuple(v) for v in p] for p in r['S']]
+        C = [[tuple(v) for v in p] for p in r['C']]
+        mask = 1 << opt_index(r['ct'], r['fr'], r['pc'])
+        out = vf.run_lines(exe, [line_for(mask, IDENT, S, C)]).stdout.strip()
+    print(out)
+    v = vf.run_lines(oracle, [out]).stdout.strip()
+    print(v)
     for ent in v.split(';')[1:]:
         head, key, msg, outp = ent.split('|')
         ctx.violation(key, 'replayed: %s' % msg, replay=r)
